@@ -233,6 +233,7 @@ func abstractWindowLive(lines []sysLine, state, cwd, liveName string) windowTrac
 	counts := map[string]int{} // "pid/name" -> calls so far
 	fdIdx := map[string]int{}  // real fd -> canonical index (descriptors opened on state-directory paths)
 	fdOpen := map[string]bool{}
+	dirFd := map[string]bool{} // descriptors opened on the state directory itself
 	nextFd := 0
 	chunk := 0
 	in := false
@@ -317,10 +318,13 @@ func abstractWindowLive(lines []sysLine, state, cwd, liveName string) windowTrac
 			if l.Name == "creat" {
 				flags = "O_WRONLY|O_CREAT|O_TRUNC"
 			}
-			if !inState { // the state directory itself (listing, directory fsync)
+			if !inState { // the state directory itself (listing, directory fsync): no effect in the model, but
+				// a step of the save like any other - it is recorded (and fault-injected) as a passive call
 				if ok {
 					fdIdx[l.Ret], fdOpen[l.Ret] = -1, false
+					dirFd[l.Ret] = true
 				}
+				emit("opendir", "Stat (Other 999)", "")
 				break
 			}
 			writable := strings.Contains(flags, "O_WRONLY") || strings.Contains(flags, "O_RDWR") || strings.Contains(flags, "O_TRUNC") || strings.Contains(flags, "O_CREAT") || strings.Contains(flags, "O_APPEND")
@@ -374,6 +378,8 @@ func abstractWindowLive(lines []sysLine, state, cwd, liveName string) windowTrac
 		case "fsync", "fdatasync":
 			if fd, okf := fdOf(l.Args[0]); okf {
 				emit(fmt.Sprintf("fsync %d", fd), fmt.Sprintf("Fsync %d", fd), "")
+			} else if dirFd[strings.TrimSpace(l.Args[0])] {
+				emit("fsyncdir", "Stat (Other 999)", "")
 			}
 		case "ftruncate":
 			if fd, okf := fdOf(l.Args[0]); okf {
@@ -385,6 +391,12 @@ func abstractWindowLive(lines []sysLine, state, cwd, liveName string) windowTrac
 			}
 		case "close":
 			a := strings.TrimSpace(l.Args[0])
+			if dirFd[a] {
+				emit("closedir", "Stat (Other 999)", "")
+				if ok {
+					dirFd[a] = false
+				}
+			}
 			if fd, okf := fdOf(a); okf {
 				emit(fmt.Sprintf("close %d", fd), fmt.Sprintf("Close %d", fd), "")
 				if ok {
